@@ -22,24 +22,25 @@ func specSegStart(j int64, css int64) int64 {
 	return specFirstPss(css) + (j-1)*specPss(css)
 }
 
-// specNumSeg is the number of segments tink's writer emits for p plaintext bytes (p >= 0): the first segment holds
-// up to css-56 bytes, every later one up to css-16; a segment is only closed when more plaintext arrives, and Close
-// always emits a final segment (so p == 0 gives one tag-only segment, and an exactly filled segment is the last one).
-func specNumSeg(p int64, css int64) int64 {
-	if p <= specFirstPss(css) {
-		return 1
+// specLayoutOK: n is the number of segments tink's writer emits for p plaintext bytes: the first segment holds up to
+// css-56 bytes, every later one up to css-16; a segment is only closed when more plaintext arrives, and Close always
+// emits a final segment. So p == 0 gives one tag-only segment, an exactly filled segment is the last one, and the last
+// of several segments is never empty. (Stated without division: segment n-1 starts before p and ends at or after p.)
+func specLayoutOK(n int64, p int64, css int64) bool {
+	if n == 1 {
+		return 0 <= p && p <= specFirstPss(css)
 	}
-	return 1 + (p-specFirstPss(css)+specPss(css)-1)/specPss(css)
+	return n >= 2 && specSegStart(n-1, css) < p && p <= specSegStart(n, css)
 }
 
-// specCtLen is the ciphertext length (header included) tink's writer produces for p plaintext bytes.
-func specCtLen(p int64, css int64) int64 {
-	return specHdr + p + specTag*specNumSeg(p, css)
+// specCtLen is the ciphertext length (header included) of p plaintext bytes in n segments.
+func specCtLen(n int64, p int64) int64 {
+	return specHdr + p + specTag*n
 }
 
-// specSegPlainLen is the number of plaintext bytes held by segment j of a p-byte plaintext.
-func specSegPlainLen(j int64, p int64, css int64) int64 {
-	if j+1 < specNumSeg(p, css) {
+// specSegPlainLen is the number of plaintext bytes held by segment j of a p-byte plaintext in n segments.
+func specSegPlainLen(j int64, n int64, p int64, css int64) int64 {
+	if j+1 < n {
 		return specSegStart(j+1, css) - specSegStart(j, css)
 	}
 	return p - specSegStart(j, css)
@@ -49,9 +50,9 @@ func specSegPlainLen(j int64, p int64, css int64) int64 {
 // that tink's writer can produce, and the buffered segment (if any) is an authenticated segment of that layout.
 func specReaderInv(s *seekableDecryptingReader) bool {
 	return s.tinkHeaderLen == specHdr && s.css > specHdr+specTag && s.css <= 1073741824 &&
-		s.plaintextLen >= 0 && s.plaintextLen <= 1152921504606846976 && s.pos >= 0 && s.pos <= 2305843009213693952 &&
-		s.numSegments == specNumSeg(s.plaintextLen, s.css) && s.ciphertextLen == specCtLen(s.plaintextLen, s.css) &&
+		s.plaintextLen <= 4611686018427387904 && s.pos >= 0 && s.pos <= 4611686018427387904 &&
+		specLayoutOK(s.numSegments, s.plaintextLen, s.css) && s.ciphertextLen == specCtLen(s.numSegments, s.plaintextLen) &&
 		(s.segIndex == -1 || (0 <= s.segIndex && s.segIndex < s.numSegments &&
 			s.segStart == specSegStart(s.segIndex, s.css) &&
-			int64(len(s.plaintext)) == specSegPlainLen(s.segIndex, s.plaintextLen, s.css)))
+			int64(len(s.plaintext)) == specSegPlainLen(s.segIndex, s.numSegments, s.plaintextLen, s.css)))
 }
